@@ -154,54 +154,75 @@ def check(ctx: Ctx) -> list[RuleResult]:
     out.append(r2)
 
     # ---- R3 / R4 ----------------------------------------------------------------------
-    wf = repo.func(f"{MIX}._is_wanted_addrs")
-    loops = [n for n in wf.node.body if isinstance(n, ast.For)]
-    if len(loops) != 1:
-        raise AnalysisError("_is_wanted_addrs: per-address loop not found")
-    loop = loops[0]
-    r3 = RuleResult("R3", "block beats allow", "the block-list test precedes every continue / return True in the per-address loop", min_instances=1)
-    r3.instances += 1
-    r3.nontrivial += 1
-    first = loop.body[0]
-    if isinstance(first, ast.If) and norm(first.test) == f"{norm(loop.target)} in self._exclude" and isinstance(first.body[0], ast.Return) and norm(first.body[0].value) == "False":
-        r3.ok({"first_clause": norm(first)[:70]})
-    else:
-        r3.fail(f"{wf.short}:block-not-first", wf.loc(first), "the first clause of the per-address loop is no longer `if dev_id in self._exclude: return False`: an allow clause could let a block-listed id through")
-    # the final result is True only after the loop
-    tail = wf.node.body[-1]
-    r3.instances += 1
-    r3.nontrivial += 1
-    if isinstance(tail, ast.Return) and norm(tail.value) == "True" and not any(isinstance(n, ast.Return) and norm(n.value) == "True" for n in ast.walk(loop)):
-        r3.ok({"return_True": "only after both addresses were examined"})
-    else:
-        r3.fail(f"{wf.short}:early-true", wf.loc(), "_is_wanted_addrs can return True before both addresses have been examined")
-    out.append(r3)
+    # The filter only tests, for each of the two ids, membership of the block list / known list, equality with the active
+    # gateway and with the placeholder id, plus two flags: its complete decision table is computed by abstract evaluation of its
+    # source (predeval.py) and both rules are read off the table - any equivalent rewrite of the clause list passes.
+    from ..predeval import PredEval, Unsupported
 
-    r4 = RuleResult("R4", "the allow set is exactly the stated one", "clauses that `continue` before the enforce test = {active gateway, in known list, sending from the placeholder}; both src and dst are examined", min_instances=3)
-    var = norm(loop.target)
-    allow: set[str] = set()
-    enforce_seen = False
-    for st in loop.body[1:]:
-        if isinstance(st, ast.If) and isinstance(st.body[0], ast.Continue) and not enforce_seen:
-            allow.add(_canon(st.test, var))
-        elif isinstance(st, ast.If) and norm(st.test) == "self.enforce_include" and isinstance(st.body[0], ast.Return) and norm(st.body[0].value) == "False":
-            enforce_seen = True
-    expected = {f"{var} == self._active_hgi", f"{var} in self._include", f"sending and {var} == HGI_DEV_ADDR.id"}
-    r4.instances += 1
-    r4.nontrivial += 1
-    if not enforce_seen:
-        r4.fail(f"{wf.short}:no-enforce-clause", wf.loc(), "the `if self.enforce_include: return False` clause is missing: an unlisted id is never refused")
-    elif allow == expected:
-        r4.ok({"allow_clauses": sorted(allow)})
+    wf = repo.func(f"{MIX}._is_wanted_addrs")
+    # memoisation / delegation: the decision must be a function of *all* the arguments
+    r3 = RuleResult("R3", "block beats allow", "decision table of _is_wanted_addrs: a block-listed src or dst is never wanted", min_instances=1)
+    r4 = RuleResult("R4", "the allow set is exactly the stated one", "decision table: under enforcement an id passes iff it is the active gateway, in the known list, or (when sending) the placeholder id; both ids are examined", min_instances=1)
+    params = [a.arg for a in wf.node.args.args if a.arg != "self"] + [a.arg for a in wf.node.args.kwonlyargs]
+    r3.instances += 1
+    r3.nontrivial += 1
+    memo_bad = _memo_key_gaps(wf, params)
+    if memo_bad:
+        node, key_names, missing = memo_bad[0]
+        r3.fail(f"{wf.short}:memo-key-incomplete", wf.loc(node), f"_is_wanted_addrs returns a remembered decision looked up by ({', '.join(key_names)}) only, although the decision also depends on {sorted(missing)}: a verdict computed for one value of {sorted(missing)} is replayed for the other (e.g. an id admitted while *sending* from the placeholder is then admitted on reception too)")
+        out.append(r3)
     else:
-        r4.fail(f"{wf.short}:allow-set", wf.loc(), f"the clauses exempt from known-list enforcement are {sorted(allow)}, expected {sorted(expected)}", [f"extra: {sorted(allow - expected)}", f"missing: {sorted(expected - allow)}"])
-    r4.instances += 1
-    r4.nontrivial += 1
-    it = norm(loop.iter)
-    if "src_id" in it and "dst_id" in it:
-        r4.ok({"loop_over": it})
-    else:
-        r4.fail(f"{wf.short}:loop-iter", wf.loc(loop), f"the filter loop iterates over `{it}`: both src_id and dst_id must be examined")
+        r3.ok({"memoisation": "none keyed on a subset of the arguments"})
+        try:
+            tab = PredEval(ctx, wf).table()
+        except Unsupported as err:
+            raise AnalysisError(f"_is_wanted_addrs is not a decision list the evaluator understands: {err}") from err
+        ids = ("src_id", "dst_id")
+        need = {}
+        for x in ids:
+            need[x] = {"excl": f"{x} in self._exclude", "act": f"{x} == self._active_hgi", "incl": f"{x} in self._include", "hgi": f"{x} == HGI_DEV_ADDR.id"}
+        flat = [k for x in ids for k in need[x].values()] + ["sending", "self.enforce_include"]
+        missing_atoms = [k for k in flat if k not in tab.atoms]
+        rows_all = tab.rows
+        if missing_atoms:
+            # the decision does not depend on a test that is gone: complete the table with both values of it, so the rules
+            # below still quantify over every situation (and report the rows that are now decided wrongly)
+            import itertools as _it
+
+            rows_all = [({**a, **dict(zip(missing_atoms, bits))}, r) for a, r in tab.rows for bits in _it.product((False, True), repeat=len(missing_atoms))]
+            r4.notes.append(f"_is_wanted_addrs does not test {missing_atoms}: treated as don't-care")
+        if True:
+            def allowed(a: dict, x: str) -> bool:
+                return bool(a[need[x]["act"]] or a[need[x]["incl"]] or (a["sending"] and a[need[x]["hgi"]]))
+
+            r3.instances += 1
+            r3.nontrivial += 1
+            bad = [a for a, r in rows_all if (a[need["src_id"]["excl"]] or a[need["dst_id"]["excl"]]) and r is not False]
+            if bad:
+                r3.fail(f"{wf.short}:block-listed-admitted", wf.loc(), "a packet with a block-listed source or destination id can be wanted: " + tab.describe({k: v for k, v in bad[0].items() if v is True and k != "__effects__"})[:200])
+            else:
+                r3.ok({"rows": len(tab.rows), "block_listed_src_or_dst": "always refused"})
+            # enforcement on: wanted iff both ids are in the allow set
+            r4.instances += 1
+            r4.nontrivial += 1
+            rows_enf = [(a, r) for a, r in rows_all if a["self.enforce_include"] and not a[need["src_id"]["excl"]] and not a[need["dst_id"]["excl"]]]
+            too_lax = [a for a, r in rows_enf if r is not False and not (allowed(a, "src_id") and allowed(a, "dst_id"))]
+            too_strict = [a for a, r in rows_enf if r is not True and allowed(a, "src_id") and allowed(a, "dst_id")]
+            if too_lax:
+                r4.fail(f"{wf.short}:allow-set-wider", wf.loc(), "with known-list enforcement on, a packet is wanted although one of its ids is neither the active gateway, nor in the known list, nor (sending) the placeholder id: true atoms: " + ", ".join(k for k, v in too_lax[0].items() if v is True and k != "__effects__")[:220])
+            elif too_strict:
+                r4.fail(f"{wf.short}:allow-set-narrower", wf.loc(), "with known-list enforcement on, a packet between two allowed ids is refused: true atoms: " + ", ".join(k for k, v in too_strict[0].items() if v is True and k != "__effects__")[:220])
+            else:
+                r4.ok({"enforced_rows": len(rows_enf), "wanted": "iff both ids are active gateway | in known list | (sending and placeholder)"})
+            # enforcement off: nothing but the block list refuses
+            r4.instances += 1
+            r4.nontrivial += 1
+            bad = [a for a, r in rows_all if not a["self.enforce_include"] and not a[need["src_id"]["excl"]] and not a[need["dst_id"]["excl"]] and r is not True]
+            if bad:
+                r4.fail(f"{wf.short}:refused-without-enforcement", wf.loc(), "without known-list enforcement a packet whose ids are not block-listed is refused: true atoms: " + ", ".join(k for k, v in bad[0].items() if v is True and k != "__effects__")[:220])
+            else:
+                r4.ok({"not_enforced": "only the block list refuses"})
+        out.append(r3)
     init = repo.func(f"{MIX}.__init__")
     r4.instances += 1
     r4.nontrivial += 1
@@ -314,3 +335,32 @@ def _parents(n: ast.AST):
     while p is not None:
         yield p
         p = getattr(p, "parent", None)
+
+
+def _memo_key_gaps(f, params: list[str]) -> "list[tuple[ast.AST, list[str], set[str]]]":
+    """Early returns of a remembered value `self.<D>[key]` / `.get(key)` whose key omits parameters the function otherwise uses."""
+    out = []
+    used_elsewhere: set[str] = set()
+    lookups = []
+    for n in ast.walk(f.node):
+        if isinstance(n, ast.Return) and n.value is not None:
+            v = n.value
+            key = None
+            if isinstance(v, ast.Subscript) and isinstance(v.value, ast.Attribute) and isinstance(v.value.value, ast.Name) and v.value.value.id == "self":
+                key = v.slice
+            elif isinstance(v, ast.Call) and isinstance(v.func, ast.Attribute) and v.func.attr == "get" and isinstance(v.func.value, ast.Attribute) and v.args:
+                key = v.args[0]
+            if key is not None:
+                names = [x.id for x in ast.walk(key) if isinstance(x, ast.Name)]
+                lookups.append((n, names, key))
+    if not lookups:
+        return out
+    key_nodes = {id(x) for _n, _names, k in lookups for x in ast.walk(k)}
+    for x in ast.walk(f.node):
+        if isinstance(x, ast.Name) and x.id in params and id(x) not in key_nodes and isinstance(x.ctx, ast.Load):
+            used_elsewhere.add(x.id)
+    for n, names, _k in lookups:
+        missing = {p for p in params if p in used_elsewhere and p not in names}
+        if missing and any(nm in params for nm in names):
+            out.append((n, names, missing))
+    return out
